@@ -33,8 +33,15 @@ import (
 	"sync/atomic"
 	"time"
 
+	bserv "github.com/ipfs/boxo/blockservice"
+	bstore "github.com/ipfs/boxo/blockstore"
+	offline "github.com/ipfs/boxo/exchange/offline"
+	dag "github.com/ipfs/boxo/ipld/merkledag"
+	ft "github.com/ipfs/boxo/ipld/unixfs"
 	"github.com/ipfs/boxo/mfs"
 	cid "github.com/ipfs/go-cid"
+	ds "github.com/ipfs/go-datastore"
+	dssync "github.com/ipfs/go-datastore/sync"
 	mh "github.com/multiformats/go-multihash"
 
 	"verif/vlib"
@@ -45,12 +52,13 @@ func main() { vlib.Run("C21", run) }
 func run(c *vlib.Ctx) {
 	c.Rule("one case = one Republisher(tshort 1-5ms, tlong 5-20ms) with 1-2 updaters x 5-40 Update calls (pauses 0..25ms chosen around the timer values), " +
 		"1-2 WaitPub callers, publish function failing with p in {0,1/5,1/2} and delaying 0-3ms, then faults off, final Update and Close; " +
-		"strata: uniq (every handed CID is new), burst (100-300 back-to-back updates against 60-150 back-to-back WaitPub calls per waiter), revert (an updater also re-hands the initial, the last published or an earlier value), two (2 updaters, own sequences); " +
+		"strata: uniq (every handed CID is new), burst (3000-6000 Update calls in a tight loop against 300-600 back-to-back WaitPub calls per waiter, publish function 20-80us, no failures), revert (an updater also re-hands the initial, the last published or an earlier value), two (2 updaters, own sequences), root (a real mfs.Root with a recording publish function: 3-12 Mkdir/PutNode/descriptor writes, each flushed through FlushPath or left unflushed, then Root.Close: the last published CID must be the root's final node); " +
 		"distinct = FNV of the observed event-kind sequence; non-trivial = measured: a failed publish was later followed by a successful one or updates were coalesced (fewer successful publishes than distinct handed values), " +
 		"and a WaitPub that had handed values to wait for returned nil")
 	c.Cases("uniq", c.N(140, 4000), func(k *vlib.Case) { oneRun(k, "uniq") })
 	c.Cases("two", c.N(80, 3000), func(k *vlib.Case) { oneRun(k, "two") })
 	c.Cases("burst", c.N(40, 1000), func(k *vlib.Case) { oneRun(k, "burst") })
+	c.Cases("root", c.N(60, 1500), oneRoot)
 	c.Cases("revert", c.N(100, 3000), func(k *vlib.Case) { oneRun(k, "revert") })
 }
 
@@ -140,9 +148,16 @@ func oneRun(k *vlib.Case, stratum string) {
 	nwait := r.Range(1, 2)
 	failDen := vlib.Pick(r, []int{0, 5, 2})
 	maxDelayUs := vlib.Pick(r, []int{0, 300, 3000})
+	var burstDelay time.Duration
+	if stratum == "burst" {
+		// the publish function is short but not instantaneous, so values queue
+		// up while run is inside it and the next waiter is served the moment it
+		// returns - while the updater is somewhere inside Update
+		failDen, maxDelayUs, burstDelay = 0, 0, time.Duration(r.Range(20, 80))*time.Microsecond
+	}
 	initial := newCid("init")
 	finalMode := r.Intn(3) // revert stratum: last value is 0 new, 1 the initial value, 2 the last published value
-	k.Logf("config stratum=%s tshort=%v tlong=%v updaters=%d waiters=%d failP=1/%d maxPubDelay=%dus finalMode=%d GOMAXPROCS=%d", stratum, tshort, tlong, nupd, nwait, failDen, maxDelayUs, finalMode, runtime.GOMAXPROCS(0))
+	k.Logf("config stratum=%s tshort=%v tlong=%v updaters=%d waiters=%d failP=1/%d maxPubDelay=%dus burstPubDelay=%v finalMode=%d GOMAXPROCS=%d", stratum, tshort, tlong, nupd, nwait, failDen, maxDelayUs, burstDelay, finalMode, runtime.GOMAXPROCS(0))
 
 	// publish-function fault script: a pure function of the case PRNG and the attempt number
 	fr := r.Fork("pf")
@@ -163,6 +178,9 @@ func oneRun(k *vlib.Case, stratum string) {
 		n := int(attempts.Add(1)) - 1
 		lg.add(event{kind: evPubStart, idx: n, cid: ci.String()})
 		fail := false
+		if burstDelay > 0 {
+			time.Sleep(burstDelay)
+		}
 		if !faultsOff.Load() && n < scriptLen {
 			if d := delayAt[n]; d > 0 {
 				time.Sleep(d)
@@ -185,20 +203,23 @@ func oneRun(k *vlib.Case, stratum string) {
 		ur := r.Fork(fmt.Sprintf("u%d", u))
 		n := ur.Range(5, 40)
 		if stratum == "burst" {
-			n = ur.Range(100, 300)
+			n = ur.Range(3000, 6000) // tight loop for about as long as the waiters need
 		}
 		var sb strings.Builder
 		for i := 0; i < n; i++ {
 			p := plannedUpdate{pause: vlib.Pick(ur, pauses)}
-			if stratum == "burst" && !ur.Chance(1, 40) {
-				p.pause = 0 // back-to-back: Update's drain-then-put window meets WaitPub
+			if stratum == "burst" {
+				p.pause = -1 // tight loop, not even a yield: Update's drain-then-refill window meets WaitPub
+				if ur.Chance(1, 200) {
+					p.pause = 200 * time.Microsecond
+				}
 			}
 			if stratum == "revert" && ur.Chance(1, 4) {
 				p.mode = ur.Range(1, 3)
 				p.pick = ur.Intn(1 << 20)
 			}
 			plans[u] = append(plans[u], p)
-			if i < 60 {
+			if i < 60 && stratum != "burst" {
 				fmt.Fprintf(&sb, "%s/%v ", []string{"new", "init", "lastpub", "earlier"}[p.mode], p.pause)
 			}
 		}
@@ -209,7 +230,7 @@ func oneRun(k *vlib.Case, stratum string) {
 		wr := r.Fork(fmt.Sprintf("wt%d", i))
 		n := wr.Range(2, 12)
 		if stratum == "burst" {
-			n = wr.Range(60, 150)
+			n = wr.Range(300, 600)
 		}
 		for j := 0; j < n; j++ {
 			p := vlib.Pick(wr, pauses)
@@ -259,9 +280,10 @@ func oneRun(k *vlib.Case, stratum string) {
 				lg.add(event{kind: evUpdCall, who: u, idx: i, cid: ci.String()})
 				rp.Update(ci)
 				lg.add(event{kind: evUpdRet, who: u, idx: i, cid: ci.String()})
-				if p.pause > 0 {
+				switch {
+				case p.pause > 0:
 					time.Sleep(p.pause)
-				} else {
+				case p.pause == 0:
 					runtime.Gosched()
 				}
 			}
@@ -512,35 +534,31 @@ func check(k *vlib.Case, lg *log, label func(cid.Cid) string, initial cid.Cid, n
 	// ---- no-regress: per updater, an attempt never carries a value whose newest
 	// hand (before the attempt started) is older than the oldest hand of a value
 	// already published successfully.
-	for i, p := range pubs {
-		if !p.ok {
-			continue
-		}
-		for _, a := range pubs[i+1:] {
-			if a.cid == p.cid {
+	for who := 0; who < nupd; who++ {
+		runMax, runPub := -1, -1 // newest "oldest hand" among the values published successfully so far
+		for _, a := range pubs {
+			newestA, oldestA := -1, -1
+			for _, u := range byCid[a.cid] {
+				if (u.who == who || u.who == nupd) && u.call < a.start {
+					if x := seqIdx(u, nupd); x > newestA {
+						newestA = x
+					}
+					if x := seqIdx(u, nupd); oldestA < 0 || x < oldestA {
+						oldestA = x
+					}
+				}
+			}
+			if newestA < 0 || !onlyFrom(byCid[a.cid], who, nupd) {
 				continue
 			}
-			for who := 0; who < nupd; who++ {
-				newestA, oldestP := -1, -1
-				for _, u := range byCid[a.cid] {
-					if (u.who == who || u.who == nupd) && u.call < a.start && seqIdx(u, nupd) > newestA {
-						newestA = seqIdx(u, nupd)
-					}
-				}
-				for _, u := range byCid[p.cid] {
-					if (u.who == who || u.who == nupd) && u.call < p.start && (oldestP < 0 || seqIdx(u, nupd) < oldestP) {
-						oldestP = seqIdx(u, nupd)
-					}
-				}
-				if newestA >= 0 && oldestP >= 0 && newestA < oldestP {
-					// both values come from this updater only?
-					if onlyFrom(byCid[a.cid], who, nupd) && onlyFrom(byCid[p.cid], who, nupd) {
-						failAt = a.start
-						fail("regress", "no-regress: a value older than an already published one is never passed to the publish function",
-							fmt.Sprintf("after the successful publish #%d of %s nothing older from updater %d", p.n, name(p.cid), who),
-							fmt.Sprintf("attempt #%d carries %s (update %d of updater %d; published value was update %d)", a.n, name(a.cid), newestA, who, oldestP))
-					}
-				}
+			if newestA < runMax {
+				failAt = a.start
+				fail("regress", "no-regress: a value older than an already published one is never passed to the publish function",
+					fmt.Sprintf("after the successful publish #%d (update %d of updater %d) nothing older from that updater", runPub, runMax, who),
+					fmt.Sprintf("attempt #%d carries %s (update %d of updater %d)", a.n, name(a.cid), newestA, who))
+			}
+			if a.ok && oldestA > runMax {
+				runMax, runPub = oldestA, a.n
 			}
 		}
 	}
@@ -557,34 +575,58 @@ func check(k *vlib.Case, lg *log, label func(cid.Cid) string, initial cid.Cid, n
 		}
 	}
 
-	// maximal(u, bound): u is not entirely older than any update that returned before bound
-	acceptable := func(bound, before int64) map[string]bool {
-		acc := map[string]bool{}
-		any := false
-		for _, e := range upds {
-			if e.ret < bound {
-				any = true
+	// A value is acceptable at (bound, before) if some update carrying it was
+	// invoked before `before` and is not entirely older than any update that
+	// returned before `bound`, i.e. it returned after the newest invocation
+	// among those; with nothing handed yet the initial value is acceptable too.
+	byRet := make([]int, len(upds))
+	for i := range byRet {
+		byRet[i] = i
+	}
+	sort.Slice(byRet, func(a, b int) bool { return upds[byRet[a]].ret < upds[byRet[b]].ret })
+	prefMaxCall := make([]int64, len(upds))
+	for i, ix := range byRet {
+		prefMaxCall[i] = upds[ix].call
+		if i > 0 && prefMaxCall[i-1] > prefMaxCall[i] {
+			prefMaxCall[i] = prefMaxCall[i-1]
+		}
+	}
+	newestHandedCall := func(bound int64) (int64, bool) {
+		n := sort.Search(len(byRet), func(i int) bool { return upds[byRet[i]].ret >= bound })
+		if n == 0 {
+			return 0, false
+		}
+		return prefMaxCall[n-1], true
+	}
+	isAcceptable := func(c string, bound, before int64) bool {
+		m, any := newestHandedCall(bound)
+		if !any && c == initial.String() {
+			return true
+		}
+		for _, u := range byCid[c] {
+			if u.call < before && (!any || u.ret >= m) {
+				return true
 			}
 		}
+		return false
+	}
+	acceptableNames := func(bound, before int64) []string {
+		m, any := newestHandedCall(bound)
+		set := map[string]bool{}
 		if !any {
-			acc[initial.String()] = true
+			set[name(initial.String())] = true
 		}
-		for _, cand := range upds {
-			if cand.call >= before {
-				continue
-			}
-			okc := true
-			for _, e := range upds {
-				if e.ret < bound && cand.ret < e.call {
-					okc = false
-					break
-				}
-			}
-			if okc {
-				acc[cand.cid] = true
+		for _, u := range upds {
+			if u.call < before && (!any || u.ret >= m) && len(set) < 8 {
+				set[name(u.cid)] = true
 			}
 		}
-		return acc
+		var names []string
+		for n := range set {
+			names = append(names, n)
+		}
+		sort.Strings(names)
+		return names
 	}
 	lastPubBefore := func(t int64) (string, int) {
 		cur, n := initial.String(), -1
@@ -608,23 +650,12 @@ func check(k *vlib.Case, lg *log, label func(cid.Cid) string, initial cid.Cid, n
 				continue
 			}
 			tc := waitCalls[[2]int{e.who, e.idx}]
-			acc := acceptable(tc, e.t)
 			cur, n := lastPubBefore(e.t)
-			handedBefore := 0
-			for _, u := range upds {
-				if u.ret < tc {
-					handedBefore++
-				}
-			}
-			if handedBefore > 0 {
+			if _, any := newestHandedCall(tc); any {
 				judged++
 			}
-			if !acc[cur] {
-				var names []string
-				for a := range acc {
-					names = append(names, name(a))
-				}
-				sort.Strings(names)
+			if !isAcceptable(cur, tc, e.t) {
+				names := acceptableNames(tc, e.t)
 				// discriminating feature of the known Update window: an Update
 				// call overlaps the WaitPub call (Update drains the one-slot
 				// channel before it refills it)
@@ -645,14 +676,9 @@ func check(k *vlib.Case, lg *log, label func(cid.Cid) string, initial cid.Cid, n
 
 	// ---- close
 	if closeRet >= 0 && closeOK {
-		acc := acceptable(closeRet, closeRet) // every Update returned before Close was called
 		cur, n := lastPubBefore(closeRet)
-		if !acc[cur] {
-			var names []string
-			for a := range acc {
-				names = append(names, name(a))
-			}
-			sort.Strings(names)
+		if !isAcceptable(cur, closeRet, closeRet) { // every Update returned before Close was called
+			names := acceptableNames(closeRet, closeRet)
 			failAt = closeRet
 			fail("close-stale", "close: after faults stop and Close returns nil the last successful publish carries the last handed value",
 				fmt.Sprintf("one of %v", names), fmt.Sprintf("last successful publish is #%d carrying %s", n, name(cur)))
@@ -711,4 +737,142 @@ func onlyFrom(us []upd, who, nupd int) bool {
 		}
 	}
 	return true
+}
+
+// oneRoot: the republisher as MFS uses it. A real mfs.Root with a recording
+// publish function gets a sequential history of changes; some are pushed to
+// the republisher by FlushPath (which also waits for the publish), the others
+// stay in the in-memory tree. Root.Close must hand the final root to the
+// republisher and publish it before returning.
+//
+//	root-flush-unpublished  when FlushPath("/") returns, the last published CID is
+//	                        the CID of the node it returned;
+//	root-close-unpublished  after Root.Close() == nil the last published CID is
+//	                        the CID of the root's node as it was when Close was called;
+//	publish-after-close     the publish function is not called after Close returned.
+func oneRoot(k *vlib.Case) {
+	r := k.R
+	c := k.C
+	ctx, cancel := context.WithCancel(context.Background())
+	defer cancel()
+	bs := bstore.NewBlockstore(dssync.MutexWrap(ds.NewMapDatastore()))
+	dserv := dag.NewDAGService(bserv.New(bs, offline.Exchange(bs)))
+
+	var mu sync.Mutex
+	var published []cid.Cid
+	var closed atomic.Bool
+	var afterClose atomic.Int64
+	pf := func(_ context.Context, ci cid.Cid) error {
+		if closed.Load() {
+			afterClose.Add(1)
+		}
+		mu.Lock()
+		published = append(published, ci)
+		mu.Unlock()
+		return nil
+	}
+	lastPublished := func() (cid.Cid, int) {
+		mu.Lock()
+		defer mu.Unlock()
+		if len(published) == 0 {
+			return cid.Undef, 0
+		}
+		return published[len(published)-1], len(published)
+	}
+	root, err := mfs.NewEmptyRoot(ctx, dserv, pf, nil)
+	if err != nil {
+		panic(err)
+	}
+	fail := func(class, clause, exp, obs string) { k.Fail(class, clause, exp, obs) }
+
+	n := r.Range(3, 12)
+	var dirs = []string{"/"}
+	var files []string
+	flushedPublishes, unflushedTail := 0, 0
+	for i := 0; i < n; i++ {
+		parent := vlib.Pick(r, dirs)
+		flush := r.Chance(1, 2)
+		if i == n-1 || (i == n-2 && r.Bool()) {
+			flush = false // the history ends with changes that only Close can publish
+		}
+		switch x := r.Intn(10); {
+		case x < 3:
+			p := parent + fmt.Sprintf("d%d", i)
+			k.Logf("Mkdir %s flush=%v", p, flush)
+			if err := mfs.Mkdir(root, p, mfs.MkdirOpts{Flush: flush}); err != nil {
+				fail("root-op-error", "Mkdir succeeds", "nil", err.Error())
+				return
+			}
+			dirs = append(dirs, p+"/")
+		case x < 6 || len(files) == 0:
+			p := parent + fmt.Sprintf("f%d", i)
+			k.Logf("PutNode %s (empty file)", p)
+			if err := mfs.PutNode(root, p, dag.NodeWithData(ft.FilePBData(nil, 0))); err != nil {
+				fail("root-op-error", "PutNode succeeds", "nil", err.Error())
+				return
+			}
+			files = append(files, p)
+		default:
+			p := vlib.Pick(r, files)
+			k.Logf("write %s sync=%v", p, flush)
+			nd, err := mfs.Lookup(root, p)
+			if err != nil {
+				fail("root-op-error", "Lookup succeeds", "nil", err.Error())
+				return
+			}
+			fd, err := nd.(*mfs.File).Open(ctx, mfs.Flags{Write: true, Sync: flush})
+			if err == nil {
+				_, err = fd.Write([]byte(fmt.Sprintf("payload %d of %s", i, k.ID)))
+				if cerr := fd.Close(); err == nil {
+					err = cerr
+				}
+			}
+			if err != nil {
+				fail("root-op-error", "write succeeds", "nil", err.Error())
+				return
+			}
+		}
+		if flush && r.Chance(2, 3) {
+			k.Logf("FlushPath /")
+			nd, err := mfs.FlushPath(ctx, root, "/")
+			if err != nil {
+				fail("root-op-error", "FlushPath succeeds", "nil", err.Error())
+				return
+			}
+			if got, cnt := lastPublished(); !got.Equals(nd.Cid()) {
+				fail("root-flush-unpublished", "FlushPath(/) returns after the flushed root has been published", nd.Cid().String(), fmt.Sprintf("last of %d publishes: %s", cnt, got))
+			}
+			flushedPublishes++
+			unflushedTail = 0
+		} else {
+			unflushedTail++
+		}
+	}
+	final, err := root.GetDirectory().GetNode()
+	if err != nil {
+		fail("root-op-error", "GetNode succeeds", "nil", err.Error())
+		return
+	}
+	before, _ := lastPublished()
+	k.Logf("Root.Close (final root %s, last published before Close %s, %d changes since the last FlushPath)", final.Cid(), before, unflushedTail)
+	var cerr error
+	if !vlib.Guard(k, "c21-root-close", 2*time.Minute, func() { cerr = root.Close() }) {
+		return
+	}
+	closed.Store(true)
+	if cerr != nil {
+		fail("root-close-error", "Root.Close succeeds with a working publish function", "nil", cerr.Error())
+	} else if got, cnt := lastPublished(); !got.Equals(final.Cid()) {
+		fail("root-close-unpublished", "close: Root.Close publishes the final root before returning", final.Cid().String(), fmt.Sprintf("last of %d publishes: %s", cnt, got))
+	}
+	time.Sleep(time.Duration(r.Range(0, 3)) * time.Millisecond)
+	if afterClose.Load() > 0 {
+		fail("publish-after-close", "after-close: no publish after Close returned", "0 calls", fmt.Sprint(afterClose.Load()))
+	}
+	if !before.Equals(final.Cid()) && unflushedTail > 0 {
+		k.Nontrivial() // Close had something to publish
+	}
+	_, cnt := lastPublished()
+	c.Count("root_publishes", int64(cnt))
+	c.Count("root_flushpath_publishes", int64(flushedPublishes))
 }
